@@ -2326,15 +2326,38 @@ func (m *Machine) builtin(fr *frame, e *ast.CallExpr, name string) (Value, error
 			for i := int64(0); i < n; i++ {
 				l.Elems = append(l.Elems, m.zero(u.Elem()))
 			}
+			l.Cap = int(n)
+			if len(args) > 2 {
+				if c, ok := args[2].(int64); ok && c >= n {
+					l.Cap = int(c)
+				}
+			}
 			return l, nil
 		case *types.Map:
 			return &MapV{}, nil
 		}
 	case "append":
 		var base []Value
+		added := len(args) - 1
+		if e.Ellipsis.IsValid() {
+			added = 0
+			if l, ok := args[1].(*List); ok {
+				added = len(l.Elems)
+			}
+		}
+		newCap := 0
 		switch x := args[0].(type) {
 		case *List:
-			base = append(base, x.Elems...)
+			if added == 0 || x.Cap >= len(x.Elems)+added {
+				// within the capacity: the elements stay where they are
+				base = append(base, x.Elems...)
+				newCap = x.Cap
+			} else {
+				// a new array: struct values are copied over (the old ones go dead)
+				for _, el := range x.Elems {
+					base = append(base, copyVal(el))
+				}
+			}
 		case NilV:
 		default:
 			return nil, undecided(e.Pos(), "append to %s", Show(args[0]))
@@ -2350,7 +2373,34 @@ func (m *Machine) builtin(fr *frame, e *ast.CallExpr, name string) (Value, error
 				base = append(base, copyVal(a))
 			}
 		}
-		return &List{Elems: base}, nil
+		return &List{Elems: base, Cap: newCap}, nil
+	case "delete":
+		if mv, ok := args[0].(*MapV); ok && len(args) == 2 {
+			for i, k := range mv.Keys {
+				eq := m.equal(e.Pos(), k, args[1])
+				b, known := eq.(bool)
+				if !known {
+					return nil, undecided(e.Pos(), "delete with a key whose equality to a stored key is not determined")
+				}
+				if b {
+					mv.Keys = append(mv.Keys[:i:i], mv.Keys[i+1:]...)
+					mv.Vals = append(mv.Vals[:i:i], mv.Vals[i+1:]...)
+					break
+				}
+			}
+			return NilV{}, nil
+		}
+		if _, isNil := args[0].(NilV); isNil {
+			return NilV{}, nil
+		}
+	case "clear":
+		switch x := args[0].(type) {
+		case *MapV:
+			x.Keys, x.Vals = nil, nil
+			return NilV{}, nil
+		case NilV:
+			return NilV{}, nil
+		}
 	case "panic":
 		m.Notes = append(m.Notes, Note{Rule: "H-PANIC", Key: "panic@" + m.Prog.Pos(e.Pos()), Pos: e.Pos(), Msg: "explicit panic reached while expanding a template helper"})
 		return nil, undecided(e.Pos(), "panic reached")
